@@ -3,6 +3,7 @@ import IndicatorVerif.Model.Stream
 import IndicatorVerif.Spec.Indicators
 import IndicatorVerif.Model.Strategies
 import IndicatorVerif.Model.StrategyOps
+import IndicatorVerif.Model.Assets
 /-
   ivdriver: runs the executable models on cases received over a line protocol (stdin → stdout).
   One case per line, one result per line.  Floats travel as 16-digit hex bit patterns.
@@ -272,11 +273,105 @@ def runTree (prog words closings : String) : String :=
     | _ => "ERR bad-program"
   | _, _ => "ERR parse"
 
+/-! ### REPO / SYNC / CSVFILE -/
+def showSnaps (l : List Snap) : String := ",".intercalate (l.map (fun s => s!"{s.day}.{s.id}"))
+
+def showObs : Repo.Obs → String
+  | .done => "ok"
+  | .snaps none => "err"
+  | .snaps (some l) => "ok:" ++ showSnaps l
+  | .day none => "err"
+  | .day (some d) => s!"ok:{d}"
+  | .names l => "ok:" ++ ",".intercalate l
+
+/-- parse `a:name:d1,d2 | g:name | s:name:d | l:name | A`, numbering appended snapshots -/
+def parseRepoOps (ops : String) : Option (List Repo.Op) :=
+  let step (st : Option (Nat × List Repo.Op)) (op : String) : Option (Nat × List Repo.Op) :=
+    match st with
+    | none => none
+    | some (serial, acc) =>
+      match op.splitOn ":" with
+      | ["a", n, ds] =>
+        match parseNats (if ds.isEmpty then "-" else ds) with
+        | some days =>
+          let xs := (List.range days.length).map (fun i => ({ day := days.getD i 0, id := serial + i + 1 } : Snap))
+          some (serial + days.length, acc ++ [Repo.Op.append n xs])
+        | none => none
+      | ["g", n] => some (serial, acc ++ [Repo.Op.get n])
+      | ["s", n, d] => (d.toNat?).map (fun k => (serial, acc ++ [Repo.Op.since n k]))
+      | ["l", n] => some (serial, acc ++ [Repo.Op.last n])
+      | ["A"] => some (serial, acc ++ [Repo.Op.assets])
+      | _ => none
+  ((ops.splitOn ";").foldl step (some (0, []))).map (·.2)
+
+def runRepo (impl ops : String) : String :=
+  match parseRepoOps ops with
+  | none => "ERR parse"
+  | some l =>
+    let obs := if impl == "sql" then Repo.runSql [] l else Repo.runMem [] l
+    "ok " ++ ";".intercalate (obs.map showObs)
+
+def parseSpec (spec : String) (serial : Nat) : Nat × Repo.Store :=
+  if spec == "-" || spec.isEmpty then (serial, []) else
+  (spec.splitOn ";").foldl (fun (st : Nat × Repo.Store) part =>
+    match part.splitOn ":" with
+    | [n, ds] =>
+      let days := (parseNats (if ds.isEmpty then "-" else ds)).getD []
+      let xs := (List.range days.length).map (fun i => ({ day := days.getD i 0, id := st.1 + i + 1 } : Snap))
+      (st.1 + days.length, Repo.append st.2 n xs)
+    | [n] => (st.1, Repo.append st.2 n [])
+    | _ => st) (serial, [])
+
+def runSync (defDayS assets failSrc failTgt runsS srcSpec tgtSpec : String) : String :=
+  match defDayS.toNat?, runsS.toNat? with
+  | some defDay, some runs =>
+    let (serial, src) := parseSpec srcSpec 0
+    let (_, tgt0) := parseSpec tgtSpec serial
+    let fs := splitList failSrc ","
+    let ft := splitList failTgt ","
+    let names0 := if assets == "-" then Repo.sortNames (tgt0.map (·.1)) else assets.splitOn ","
+    let (tgt, errs) := (List.range runs).foldl (fun (st : Repo.Store × List String) i =>
+      let fg : String → Bool := if i == 0 then fs.contains else fun _ => false
+      let fa : String → Bool := if i == 0 then ft.contains else fun _ => false
+      let r := SyncM.run src defDay fg fa st.1 names0
+      (r.1, st.2 ++ [if r.2 then "t" else "f"])) (tgt0, [])
+    let all := Repo.sortNames (Repo.dedup ((src.map (·.1)) ++ (tgt0.map (·.1)) ++ (if assets == "-" then [] else names0)))
+    let dump := ";".intercalate (all.map (fun n => match Repo.lookup tgt n with
+      | none => n ++ "=err"
+      | some l => n ++ "=" ++ showSnaps l))
+    "ok err=" ++ ",".intercalate errs ++ " | " ++ dump
+  | _, _ => "ERR parse"
+
+def runCsvFile (ops : String) : String :=
+  let step (st : CsvFile.File × Nat × List String) (op : String) : CsvFile.File × Nat × List String :=
+    let (f, next, out) := st
+    let mk (k : Nat) : List Nat := (List.range k).map (fun i => next + i + 1)
+    match op.splitOn ":" with
+    | ["w", k] => let k := k.toNat!; (CsvFile.write f (mk k), next + k, out ++ ["ok"])
+    | ["a", k] =>
+      let k := k.toNat!
+      match CsvFile.appendF f (mk k) with
+      | some f' => (f', next + k, out ++ ["ok"])
+      | none => (f, next + k, out ++ ["err"])
+    | ["aw", k] => let k := k.toNat!; (CsvFile.appendOrWrite f (mk k), next + k, out ++ ["ok"])
+    | ["z"] => (some (false, []), next, out ++ ["ok"])
+    | ["r"] =>
+      match CsvFile.read f with
+      | none => (f, next, out ++ ["rerr"])
+      | some rows => (f, next, out ++ ["r=" ++ ",".intercalate (rows.map toString)])
+    | _ => (f, next, out ++ ["bad"])
+  let (_, _, out) := (ops.splitOn ";").foldl step (none, 0, [])
+  "ok " ++ ";".intercalate out
+
 def handle (line : String) : String :=
   match (line.trimAscii.toString).splitOn " " with
   | [id, "IND", name, ns, fs, streams] => id ++ " " ++ runInd name ns fs streams
   | [id, "STRAT", name, ns, fs, streams] => id ++ " " ++ runStrat name ns fs streams
   | [id, "TREE", prog, words, closings] => id ++ " " ++ runTree prog words closings
+  | [id, "REPO", impl, ops] => id ++ " " ++ runRepo impl ops
+  | [id, "SYNC", _workers, defDay, assets, failSrc, failTgt, _impl, runs, srcSpec, tgtSpec] =>
+      id ++ " " ++ runSync defDay assets failSrc failTgt runs srcSpec tgtSpec
+  | [id, "CSVFILE", ops] => id ++ " " ++ runCsvFile ops
   | [id, "HELPER", name, ps, streams] => id ++ " " ++ runHelper name ps streams
   | [id, "HELPERF", name, ps, streams] => id ++ " " ++ runHelperF name ps streams
   | [id, "RING", _typ, cap, ops] => id ++ " " ++ runRing cap ops
